@@ -119,7 +119,8 @@ pub fn f_general(seed: u64, o: &GeneralOpts) -> Plan {
             let t = rng.below(n_topics as u64) as usize;
             for _ in 0..rng.range(1, 4) {
                 let n = if o.big_batches && rng.chance(150) { rng.range(20, 50) as usize } else { rng.range(1, 6) as usize };
-                let mut st = Step::after(rng.below(3) * rng.below(40_000), Op::Publish { topic: topics[t].clone(), msgs: msgs(&mut rng, n, o.rich_payloads) });
+                let op = Op::Publish { topic: topics[t].clone(), msgs: msgs(&mut rng, n, o.rich_payloads) };
+                let mut st = Step::after(rng.below(3) * rng.below(40_000), op);
                 if o.publisher_faults && !faultless && rng.chance(60) {
                     st.abandon_at = rng.range(1, 3) as u32;
                 }
@@ -1042,7 +1043,7 @@ pub fn f_hostile(seed: u64) -> Plan {
 
 pub fn f_limits(seed: u64, allow_huge: bool) -> Plan {
     let mut rng = Rng::new(seed);
-    let mut plan = Plan { seed, family: "limits".into(), final_drain: false, health_probe: true, ..Default::default() };
+    let mut plan = Plan { seed, family: "limits".into(), final_drain: true, health_probe: true, ..Default::default() };
     plan.tags.push("sequential".into());
     plan.knobs = knobs(&mut rng, false, 0);
     let topic = topic_name("proj-q", 0);
@@ -1147,5 +1148,88 @@ pub fn f_lease_parked(seed: u64) -> Plan {
         plan.phases.push(Phase { scripts: vec![probes], advance_us: *rng.pick(&[0u64, 12_000_000]), audit: true });
     }
     plan.phases.push(Phase { scripts: vec![vec![Step::new(Op::Pull { sub: sub.clone(), max: 1000, immediate: true })]], advance_us: 0, audit: false });
+    plan
+}
+
+
+// ------------------------------------------------------------------------------------------------
+// F-bigbatch: one Publish request of 1000-3000 messages racing small ones; a sequential consumer.
+// ------------------------------------------------------------------------------------------------
+
+pub fn f_bigbatch(seed: u64) -> Plan {
+    let mut rng = Rng::new(seed);
+    let mut plan = Plan { seed, family: "bigbatch".into(), final_drain: true, health_probe: false, ..Default::default() };
+    plan.knobs = knobs(&mut rng, false, 0);
+    let topic = topic_name("proj-b", 0);
+    let n_subs = rng.range(1, 2) as usize;
+    let mut setup = vec![Step::new(Op::CreateTopic { topic: topic.clone() })];
+    for j in 0..n_subs {
+        setup.push(Step::new(Op::CreateSub { sub: sub_name("proj-b", 0, j), topic: topic.clone(), ack_deadline: 60, push: None }));
+    }
+    plan.phases.push(Phase { scripts: vec![setup], advance_us: 0, audit: false });
+    let mut scripts: Vec<Vec<Step>> = Vec::new();
+    scripts.push(vec![Step::after(rng.below(2) * 1_000, Op::PublishMany { topic: topic.clone(), count: *rng.pick(&[999u32, 1000, 1001, 1500, 2048, 3000]) })]);
+    for _ in 0..rng.range(1, 3) {
+        let mut s = Vec::new();
+        for _ in 0..rng.range(1, 4) {
+            s.push(Step::after(rng.below(3) * 1_000, Op::Publish { topic: topic.clone(), msgs: msgs_r(&mut rng, 1, 3, false) }));
+        }
+        scripts.push(s);
+    }
+    plan.phases.push(Phase { scripts, advance_us: 0, audit: false });
+    // one sequential consumer per subscription, acknowledging as it goes
+    let mut scripts: Vec<Vec<Step>> = Vec::new();
+    for j in 0..n_subs {
+        let sub = sub_name("proj-b", 0, j);
+        let mut s = Vec::new();
+        for _ in 0..6 {
+            s.push(Step::new(Op::Pull { sub: sub.clone(), max: *rng.pick(&[1000i32, 1000, 700, 5000]), immediate: true }));
+            s.push(Step::new(Op::Ack { sub: sub.clone(), sel: sel_mine(Pick::LastResponse) }));
+        }
+        scripts.push(s);
+    }
+    plan.phases.push(Phase { scripts, advance_us: 0, audit: false });
+    plan
+}
+
+// ------------------------------------------------------------------------------------------------
+// F-dupcreate: several clients create the same subscription name at once (no deletes), then
+// the topic is published to: whichever create won, the subscription must receive everything.
+// ------------------------------------------------------------------------------------------------
+
+pub fn f_dupcreate(seed: u64) -> Plan {
+    let mut rng = Rng::new(seed);
+    let mut plan = Plan { seed, family: "dupcreate".into(), final_drain: true, health_probe: true, ..Default::default() };
+    plan.tags.push("audit_lists".into());
+    plan.knobs = knobs(&mut rng, true, 0);
+    let topic = topic_name("proj-u", 0);
+    plan.phases.push(Phase { scripts: vec![vec![Step::new(Op::CreateTopic { topic: topic.clone() })]], advance_us: 0, audit: false });
+    let n_names = rng.range(1, 2) as usize;
+    let mut scripts: Vec<Vec<Step>> = Vec::new();
+    let mut dl = 11;
+    for j in 0..n_names {
+        let sub = sub_name("proj-u", 0, j);
+        for _ in 0..rng.range(2, 4) {
+            dl += 1;
+            let mut s = vec![Step::after(rng.below(2) * rng.below(300), Op::CreateSub { sub: sub.clone(), topic: topic.clone(), ack_deadline: dl, push: None })];
+            if rng.chance(300) {
+                s.push(Step::new(Op::GetSub { sub: sub.clone() }));
+            }
+            scripts.push(s);
+        }
+    }
+    if rng.chance(500) {
+        scripts.push(vec![Step::after(rng.below(300), Op::Publish { topic: topic.clone(), msgs: msgs_r(&mut rng, 1, 3, false) })]);
+    }
+    plan.phases.push(Phase { scripts, advance_us: rng.below(500_000), audit: true });
+    let mut after: Vec<Step> = vec![Step::new(Op::Publish { topic: topic.clone(), msgs: msgs_r(&mut rng, 1, 4, false) })];
+    for j in 0..n_names {
+        let sub = sub_name("proj-u", 0, j);
+        after.push(Step::new(Op::Pull { sub: sub.clone(), max: 100, immediate: true }));
+        if rng.chance(500) {
+            after.push(Step::new(Op::Ack { sub, sel: sel_mine(Pick::LastResponse) }));
+        }
+    }
+    plan.phases.push(Phase { scripts: vec![after], advance_us: *rng.pick(&[0u64, 13_000_000]), audit: true });
     plan
 }
